@@ -129,13 +129,79 @@ def _req_mutate(r: RequestId, old, new, path: str):
         r.ccsds_version = new["version"]
 
 
+class _Taken:
+    """A request ID the application obtained for a telecommand BEFORE it reused the telecommand object for the next
+    command: the ID of the telecommand that was sent is a value (the first four octets that went out). `check` requires,
+    whatever happened to the telecommand object since: pack() / as_u32() / hash() / field view unchanged, still equal (both
+    directions, equal hashes) to the request ID decoded from the octets it packed to then, still found - by itself and by
+    that decoded request ID - in the dictionary it was filed in then."""
+
+    def __init__(self, r: RequestId, label: str):
+        self.r, self.label = r, label
+        self.raw, self.u32, self.hash, self.fields = bytes(r.pack()), int(r.as_u32()), hash(r), _req_fields(r)
+        self.book = {r: label}
+
+    def check(self, after: str):
+        r = self.r
+        now = (bytes(r.pack()), int(r.as_u32()), hash(r), _req_fields(r))
+        if now != (self.raw, self.u32, self.hash, self.fields):
+            raise SelfCheckFailure(f"{self.label}: it packed to {self.raw.hex()} (as_u32 {self.u32:#010x}) when it was taken; after {after} "
+                                   f"it packs to {now[0].hex()} (as_u32 {now[1]:#010x}, hash {'unchanged' if now[2] == self.hash else 'changed'}): "
+                                   f"the request id of a telecommand that was sent changed retroactively")
+        back = RequestId.unpack(self.raw)
+        if not (r == back) or not (back == r) or hash(back) != hash(r):
+            raise SelfCheckFailure(f"{self.label}: after {after} it no longer equals / hashes like the request id decoded from its own "
+                                   f"octets {self.raw.hex()}")
+        if self.book.get(back) != self.label or r not in self.book or self.book.get(r) != self.label or len(self.book) != 1:
+            raise SelfCheckFailure(f"{self.label}: filed as dictionary key when it was taken ({self.raw.hex()}); after {after} the entry "
+                                   f"is no longer found under that request id")
+
+
+def _tc_like(v) -> bool:
+    return (v["version"], v["ptype"], v["shf"], v["flags"]) == (0, 1, 1, 3)
+
+
+def _tc_of(v) -> PusTc:
+    """a telecommand object whose space packet header carries the six fields"""
+    tc = PusTc(service=17, subservice=1, apid=v["apid"], seq_count=v["count"], app_data=b"\x01\x02")
+    if v["version"] != 0:
+        h = tc.sp_header
+        tc.sp_header = SpacePacketHeader(packet_type=PacketType(v["ptype"]), apid=h.apid, seq_count=h.seq_count, data_len=h.data_len,
+                                         sec_header_flag=bool(v["shf"]), seq_flags=SequenceFlags(v["flags"]), ccsds_version=v["version"])
+    elif not _tc_like(v):
+        tc.sp_header.packet_type = PacketType(v["ptype"])
+        tc.sp_header.sec_header_flag = bool(v["shf"])
+        tc.sp_header.seq_flags = SequenceFlags(v["flags"])
+    return tc
+
+
+def _reuse_header(tc, hdr: SpacePacketHeader, new, how: str = "tc"):
+    """What an application does with ONE telecommand (header) object when it sends the next command: the fields named in
+    `new` (apid, count, ptype, shf, flags - there is no setter for the version bits) are assigned through the documented
+    setters. how: "tc" - `tc.apid` / `tc.seq_count` where a telecommand exists, the header's setters for the rest;
+    "hdr" - the setters of `tc.sp_header` only; "parts" - first the public attributes of the PacketId / PacketSeqCtrl
+    objects the header hands out (a refused assignment is ignored), then the header's setters all the same."""
+    names = {"apid": ("apid", int), "count": ("seq_count", int), "ptype": ("packet_type", PacketType), "shf": ("sec_header_flag", bool),
+             "flags": ("seq_flags", SequenceFlags)}
+    if how == "parts":
+        for k, (holder, attr) in (("apid", ("packet_id", "apid")), ("ptype", ("packet_id", "ptype")), ("shf", ("packet_id", "sec_header_flag")),
+                                  ("count", ("packet_seq_control", "seq_count")), ("flags", ("packet_seq_control", "seq_flags"))):
+            if k in new:
+                core.tolerant_set(getattr(hdr, holder), attr, names[k][1](new[k]))
+    for k in ("count", "apid", "ptype", "shf", "flags"):
+        if k in new:
+            n, conv = names[k]
+            setattr(tc if (tc is not None and how == "tc" and k in ("apid", "count")) else hdr, n, conv(new[k]))
+
+
 def _req_after_history(a) -> RequestId:
     """the request ID of the case's parameters, reached the long way (see key "hist").
     source "fields" / "unpack" / "sp_header" / "pus_tc": how the request ID was obtained with the OLD values; then views
     are read; then it is changed to the case's values ("assign" / "inplace"), or - path "header" - the space packet header
-    (telecommand) it was taken from is changed to them through the header's setters. Whether a request ID follows the
-    header it was taken from is not claimed either way: it only has to stay ONE request ID (all its forms agree), and a
-    request ID taken from the header afterwards is the one the model packs."""
+    (telecommand) it was taken from is changed to them through the header's setters, as an application does that reuses
+    one telecommand object for the next command. The request ID of a telecommand is the first four octets that were
+    SENT: the one taken earlier keeps the old values in every form (it is what a fresh request ID built from the old fields
+    is, it stays filed under the old octets), and a request ID taken from the header afterwards is the one the model packs."""
     h = a["hist"]
     old, src, path = h["from"], h.get("source", "fields"), h.get("path", "assign")
     keep = {}
@@ -160,20 +226,33 @@ def _req_after_history(a) -> RequestId:
         _req_consistent(got["obj"], "RequestId changed through its public attributes")
         return got["obj"]
     r = make()
-    core.read_views(r, _req_views(old), h.get("read"))
+    rd = h.get("read")
+    read = core.read_views(r, _req_views(old), rd)
+    # (filed as a dictionary key only where the case reads that much before the change: with "read": [] nothing of the
+    #  request ID has been looked at when the header changes - a request ID that takes its snapshot at first use shows)
+    taken = _Taken(r, f"RequestId taken from a header ({src})") if rd is None or "lookup" in rd or "hash" in rd else None
     hdr = keep["hdr"]
-    for k, n, v in (("apid", "apid", a["apid"]), ("count", "seq_count", a["count"]), ("ptype", "packet_type", PacketType(a["ptype"])),
-                    ("shf", "sec_header_flag", bool(a["shf"])), ("flags", "seq_flags", SequenceFlags(a["flags"]))):
-        if old[k] != a[k]:
-            setattr(keep["tc"] if ("tc" in keep and k in ("apid", "count")) else hdr, n, v)
-    for n in (h.get("after") or REQ_VIEW_NAMES):
-        if n in ("u32", "hash", "pack", "fields"):
-            dict(_req_views(old))[n](r)
+    _reuse_header(keep.get("tc"), hdr, {k: a[k] for k in ("apid", "count", "ptype", "shf", "flags") if old[k] != a[k]},
+                  h.get("how", "tc"))
+    what = (f"the header / telecommand it was taken from ({src}, then {sorted(read) if read else 'nothing'} read) was given the fields of "
+            f"the next command through its setters")
+    now_v = core.read_views(r, _req_views(old), h.get("after"))
+    fresh = core.read_views(_req(old), _req_views(old), h.get("after"))
+    for n in now_v:
+        if now_v[n] != fresh.get(n):
+            raise SelfCheckFailure(f"RequestId: after {what}, `{n}` of the request id taken BEFORE shows {core._short(now_v[n])}; the request "
+                                   f"id of the telecommand that was sent shows {core._short(fresh.get(n))}")
         _req_consistent(r, f"RequestId taken from a header ({src}) that was changed afterwards through its setters (last read: {n})")
+    if taken is not None:
+        taken.check(what)
     now = RequestId.from_sp_header(hdr) if "tc" not in keep else RequestId.from_pus_tc(keep["tc"])
     if bytes(now.pack()) != bytes(hdr.pack())[:4]:
         raise SelfCheckFailure("request id of a header is not the header's first four octets")
     _req_consistent(now, "RequestId taken from a header after the header was changed")
+    differ = any(old[k] != a[k] for k in ("apid", "count", "ptype", "shf", "flags"))
+    if differ and ((now == r) or (r == now) or {r: "first"}.get(now) is not None):
+        raise SelfCheckFailure(f"RequestId: the request id taken from the header before ({bytes(r.pack()).hex()}) and the one taken after "
+                               f"({bytes(now.pack()).hex()}) {what} compare equal / find each other as dictionary keys")
     return now
 
 
@@ -315,10 +394,10 @@ def op_fn_eq(a):
     return {"eq": bool(x == y)}
 
 
-def _params(p):
+def _params(p, req=None):
     step = None if p["step_id"] is None else _pfe(p["step_id"])
     fail = None if p["failure"] is None else _fn(p["failure"])
-    return VerificationParams(_req(p["req_id"]), step, fail)
+    return VerificationParams(_req(p["req_id"]) if req is None else req, step, fail)
 
 
 def op_vp_pack(a):
@@ -335,8 +414,8 @@ def _sub(v):
     return Subservice(v) if v in range(9) else v
 
 
-def _s1(a):
-    vp = None if a["params"] is None else _params(a["params"])
+def _s1(a, req=None):
+    vp = None if a["params"] is None else _params(a["params"], req)
     return Service1Tm(apid=a["apid"], subservice=_sub(a["subservice"]), timestamp=unhx(a["timestamp"]), verif_params=vp,
                       seq_count=a["count"], packet_version=a["version"], space_time_ref=a["time_ref"],
                       destination_id=a["dest_id"]), vp
@@ -372,7 +451,66 @@ def _check_report(s: Service1Tm, vp: VerificationParams, raw: bytes, ts_len: int
         raise SelfCheckFailure("from_tm(PusTm.unpack(...)) differs from the original report")
 
 
+def _report_kept(s: Service1Tm, raw: bytes, was, ts_len: int, step, fail, first4: bytes, what: str):
+    """A report that was built and packed for a telecommand BEFORE the telecommand object was reused for the next command
+    (`was` = its field view then, `first4` = the first four octets of the telecommand's header then) is still the report
+    for THAT telecommand: pack() repeats `raw`, tc_req_id packs to the first four source-data octets of `raw`, the field
+    view is unchanged, and every clause checked when it was built holds again (decode(raw) == report, both directions,
+    re-packs identically, also through from_tm)."""
+    again = core.pack_stable(s, "Service1Tm.pack()")
+    if again != raw:
+        raise SelfCheckFailure(f"Service1Tm.pack() returned {raw.hex()[:100]} when the report was built and returns {again.hex()[:100]} "
+                               f"after {what}")
+    src4, rid = raw[13 + ts_len:17 + ts_len], bytes(s.tc_req_id.pack())
+    if rid != src4 or src4 != first4:
+        raise SelfCheckFailure(f"after {what}, tc_req_id of the report built BEFORE packs to {rid.hex()}; the report's own packed source "
+                               f"data starts with {src4.hex()} (the telecommand it was built for: {first4.hex()}): the report no longer "
+                               f"carries the request id of its telecommand")
+    now = _s1_fields(s)
+    if now != was:
+        diff = sorted(k for k in now if now[k] != was.get(k))
+        raise SelfCheckFailure(f"after {what}, the report built BEFORE shows other values ({diff}): "
+                               f"{core._short(was['params'])} became {core._short(now['params'])}")
+    try:
+        _check_report(s, VerificationParams(RequestId.unpack(first4), step, fail), raw, ts_len)
+    except SelfCheckFailure as e:
+        raise SelfCheckFailure(f"after {what}, for the report built BEFORE: {e}")
+
+
+def _s1_pack_via_header(a, via):
+    """key "req_via" of s1_pack (not read by the model op): {"source": "sp_header" | "pus_tc", "then": {field: value},
+    "how": "tc" | "hdr" | "parts"} - the request ID of the report is not built from the fields but TAKEN from a space packet
+    header / telecommand object carrying them (RequestId.from_sp_header / from_pus_tc), the report is built with the
+    constructor and packed; then the application gives the header / telecommand object the fields `then` of its next
+    command through the documented setters. The report and the request ID stay those of the telecommand they were made for."""
+    f = a["params"]["req_id"]
+    if via["source"] == "pus_tc":
+        tc = _tc_of(f)
+        hdr, r, label = tc.sp_header, RequestId.from_pus_tc(tc), "RequestId.from_pus_tc(tc)"
+    else:
+        tc, hdr = None, _sph_of(f)
+        r, label = RequestId.from_sp_header(hdr), "RequestId.from_sp_header(header)"
+    s, vp = _s1(a, r)
+    ts_len = len(unhx(a["timestamp"]))
+    raw = core.pack_stable(s, "Service1Tm.pack()")
+    _check_report(s, vp, raw, ts_len)
+    first4, was = bytes(hdr.pack())[:4], _s1_fields(s)
+    if first4 != bytes(_req(f).pack()):
+        raise SelfCheckFailure("request id of a header is not the header's first four octets")
+    taken = [_Taken(r, label), _Taken(s.tc_req_id, "tc_req_id of the report")]
+    how = via.get("how", "tc")
+    _reuse_header(tc, hdr, via["then"], how)
+    what = (f"the {'telecommand' if tc is not None else 'header'} object the request id was taken from was given "
+            f"{json.dumps(via['then'], sort_keys=True)} through its setters ({how}) for the next command")
+    _report_kept(s, raw, was, ts_len, vp.step_id, vp.failure_notice, first4, what)
+    for t in taken:
+        t.check(what)
+    return {"raw": hx(core.pack_stable(s, "Service1Tm.pack()")), "s1": _s1_fields(s), "src": hx(s.source_data)}
+
+
 def op_s1_pack(a):
+    if a.get("req_via") and a.get("params"):
+        return _s1_pack_via_header(a, a["req_via"])
     s, vp = _s1(a)
     raw = core.pack_stable(s, "Service1Tm.pack()")
     _check_report(s, vp, raw, len(unhx(a["timestamp"])))
@@ -434,24 +572,7 @@ def op_s1_create(a):
     fail = None if a["failure"] is None else _fn(a["failure"])
     ts = unhx(a["timestamp"])
     sub, apid = a["subservice"], a["apid"]
-    if sub == 1:
-        s = s1.create_acceptance_success_tm(apid, tc, ts)
-    elif sub == 2:
-        s = s1.create_acceptance_failure_tm(apid, tc, fail, ts)
-    elif sub == 3:
-        s = s1.create_start_success_tm(apid, tc, ts)
-    elif sub == 4:
-        s = s1.create_start_failure_tm(apid, tc, fail, ts)
-    elif sub == 5:
-        s = s1.create_step_success_tm(apid, tc, step, ts)
-    elif sub == 6:
-        s = s1.create_step_failure_tm(apid, tc, step, fail, ts)
-    elif sub == 7:
-        s = s1.create_completion_success_tm(apid, tc, ts)
-    elif sub == 8:
-        s = s1.create_completion_failure_tm(apid, tc, fail, ts)
-    else:
-        raise ValueError("no such helper")
+    s = _create(sub, apid, tc, step, fail, ts)
     raw = core.pack_stable(s, "Service1Tm.pack()")
     if bytes(s.source_data)[:4] != bytes(tc.sp_header.pack())[:4]:
         raise SelfCheckFailure("report does not carry the first four octets of the telecommand's space packet header")
@@ -459,7 +580,61 @@ def op_s1_create(a):
     if not (s.tc_req_id == rq) or s.tc_req_id.as_u32() != int.from_bytes(bytes(tc.sp_header.pack())[:4], "big"):
         raise SelfCheckFailure("tc_req_id is not the request id of the telecommand")
     _check_report(s, VerificationParams(rq, step, fail), raw, len(ts))
-    return {"raw": hx(raw), "s1": _s1_fields(s), "src": hx(s.source_data)}
+    if a.get("reuse"):
+        _create_then_reuse(a["reuse"], s, raw, rq, tc, sub, apid, step, fail, ts)
+    return {"raw": hx(core.pack_stable(s, "Service1Tm.pack()")), "s1": _s1_fields(s), "src": hx(s.source_data)}
+
+
+def _create(sub, apid, tc, step, fail, ts) -> Service1Tm:
+    if sub == 1:
+        return s1.create_acceptance_success_tm(apid, tc, ts)
+    if sub == 2:
+        return s1.create_acceptance_failure_tm(apid, tc, fail, ts)
+    if sub == 3:
+        return s1.create_start_success_tm(apid, tc, ts)
+    if sub == 4:
+        return s1.create_start_failure_tm(apid, tc, fail, ts)
+    if sub == 5:
+        return s1.create_step_success_tm(apid, tc, step, ts)
+    if sub == 6:
+        return s1.create_step_failure_tm(apid, tc, step, fail, ts)
+    if sub == 7:
+        return s1.create_completion_success_tm(apid, tc, ts)
+    if sub == 8:
+        return s1.create_completion_failure_tm(apid, tc, fail, ts)
+    raise ValueError("no such helper")
+
+
+def _create_then_reuse(ru, s, raw, rq, tc, sub, apid, step, fail, ts):
+    """key "reuse" of s1_create (not read by the model op): {"then": {field: value}, "how": "tc" | "hdr" | "parts"} - after the
+    report for the telecommand has been built and packed, the application gives the SAME telecommand object the header
+    fields `then` of its next command through the documented setters (tc.seq_count, tc.apid, the setters of tc.sp_header)
+    and builds the report for that one with the same helper. "Every report built for a telecommand carries that
+    telecommand's request ID" is about the telecommand that was sent: the first report, its request ID and the request IDs
+    the application took for the first command stay what they were; the second report carries the new four octets."""
+    hdr = tc.sp_header
+    first4, was = bytes(hdr.pack())[:4], _s1_fields(s)
+    taken = [_Taken(rq, "RequestId.from_pus_tc(tc)"), _Taken(RequestId.from_sp_header(hdr), "RequestId.from_sp_header(tc.sp_header)"),
+             _Taken(s.tc_req_id, "tc_req_id of the report")]
+    how = ru.get("how", "tc")
+    _reuse_header(tc, hdr, ru["then"], how)
+    what = (f"the telecommand object was given {json.dumps(ru['then'], sort_keys=True)} through its setters ({how}) for the next command")
+    _report_kept(s, raw, was, len(ts), step, fail, first4, what)
+    for t in taken:
+        t.check(what)
+    nxt = _create(sub, apid, tc, step, fail, ts)
+    raw_n, next4 = core.pack_stable(nxt, "Service1Tm.pack()"), bytes(tc.sp_header.pack())[:4]
+    if bytes(nxt.source_data)[:4] != next4 or bytes(nxt.tc_req_id.pack()) != next4:
+        raise SelfCheckFailure(f"the report built for the next command of a reused telecommand object (header now {next4.hex()}) carries "
+                               f"{bytes(nxt.source_data)[:4].hex()} / tc_req_id {bytes(nxt.tc_req_id.pack()).hex()}")
+    _check_report(nxt, VerificationParams(RequestId.from_pus_tc(tc), step, fail), raw_n, len(ts))
+    if next4 != first4 and ((nxt == s) or (s == nxt) or (nxt.tc_req_id == s.tc_req_id) or raw_n == raw):
+        raise SelfCheckFailure(f"the reports for two different telecommands ({first4.hex()}, then {next4.hex()} on the same telecommand "
+                               f"object) compare equal / carry equal request ids")
+    what += " and the report for that command was built"
+    _report_kept(s, raw, was, len(ts), step, fail, first4, what)
+    for t in taken:
+        t.check(what)
 
 
 def op_s1_unpack(a):
@@ -530,6 +705,24 @@ def rand_tc(rng):
             "apid": rng.choice([0, 1, 0x7FF, rng.randint(0, 2047)]), "data": hx(rbytes(rng, rng.choice([0, 0, 1, 4, 30]))),
             "count": rng.choice([0, 1, 16383, rng.randint(0, 16383)]), "source_id": rng.choice([0, 65535, rng.randint(0, 65535)]),
             "ack": rng.randint(0, 15), "version": rng.choice([0, 0, 1, 5, 7])}
+
+
+def next_command(rng, cur):
+    """header fields an application assigns to a telecommand object it reuses for its next command (cur = the six fields it
+    carries now): usually the next sequence count, sometimes another APID, sometimes other flag bits; at least one of the
+    32 request-id bits changes"""
+    then = {}
+    r = rng.random()
+    if r < 0.75:
+        then["count"] = rng.choice([(cur["count"] + 1) % 16384, (cur["count"] + 1) % 16384, cur["count"] ^ 0x2000, rng.randint(0, 16383)])
+    if r >= 0.6:
+        then["apid"] = rng.choice([cur["apid"] ^ 0x400, cur["apid"] ^ 1, rng.randint(0, 2047)])
+    if rng.random() < 0.2:
+        k = rng.choice(["ptype", "shf", "flags"])
+        then[k] = {"ptype": 1 - cur["ptype"], "shf": 1 - cur["shf"], "flags": (cur["flags"] + rng.randint(1, 3)) % 4}[k]
+    if all(cur[k] == v for k, v in then.items()):
+        then["count"] = (cur["count"] + 1) % 16384
+    return then
 
 
 def crc16(data: bytes) -> int:
@@ -741,8 +934,12 @@ class C15(Prop):
                                 continue
                             after = list(REQ_VIEW_NAMES)
                             rng.shuffle(after)
-                            yield Case({"op": "req_pack", **a, "hist": {"from": old, "source": src, "path": path, "read": rd,
-                                                                        "after": after}}, "valid", tag="read-set-read")
+                            hist = {"from": old, "source": src, "path": path, "read": rd, "after": after}
+                            if path == "header":
+                                # the telecommand / header object is reused for the next command: tc.apid / tc.seq_count, the
+                                # header's setters, or the attributes of the PacketId / PacketSeqCtrl the header hands out first
+                                hist["how"] = ("tc", "hdr", "parts")[k % 3]
+                            yield Case({"op": "req_pack", **a, "hist": hist}, "valid", tag="read-set-read" if path != "header" else "header-reused")
         # ---------------------------------------------------------------- packet field enum
         for pfc in range(0, 81):
             n = int(round(pfc / 8))
@@ -832,6 +1029,7 @@ class C15(Prop):
         # ---------------------------------------------------------------- service 1 reports
         # all subservices x width pairs x timestamp lengths, through the constructor and the helpers
         reps = 4 if thorough else 2
+        n_via = 0
         for sub in range(1, 9):
             for sw in WIDTHS:
                 for ew in WIDTHS:
@@ -839,11 +1037,25 @@ class C15(Prop):
                         for _ in range(reps):
                             a = s1_args(rng, sub, sw, ew, ts)
                             yield Case({"op": "s1_pack", **a}, "valid", tag=f"sub{sub}")
+                        if ts % 3 == 1 or thorough:
+                            # the request ID of the report is taken from a header / telecommand object that the application
+                            # reuses for its next command once the report is built (key "req_via")
+                            n_via += 1
+                            src = ("pus_tc", "sp_header")[n_via % 2]
+                            a = s1_args(rng, sub, sw, ew, ts, req=rand_req(rng, tc_like=(src == "pus_tc" and rng.random() < 0.7)))
+                            a["req_via"] = {"source": src, "then": next_command(rng, a["params"]["req_id"]), "how": ("tc", "hdr", "parts")[n_via % 3]}
+                            yield Case({"op": "s1_pack", **a}, "valid", tag=f"sub{sub}-header-reused")
                         if ts % 2 == 0 or thorough:
                             p = params_for(rng, sub, sw, ew)
-                            yield Case({"op": "s1_create", "subservice": sub, "apid": rng.randint(0, 2047), "tc": rand_tc(rng),
-                                        "step_id": p["step_id"], "failure": p["failure"], "timestamp": hx(rbytes(rng, ts))},
-                                       "valid", tag=f"create{sub}")
+                            tc = rand_tc(rng)
+                            c = {"op": "s1_create", "subservice": sub, "apid": rng.randint(0, 2047), "tc": tc,
+                                 "step_id": p["step_id"], "failure": p["failure"], "timestamp": hx(rbytes(rng, ts))}
+                            yield Case(c, "valid", tag=f"create{sub}")
+                            # the same helper call; afterwards the telecommand object is reused for the next command (key "reuse")
+                            n_via += 1
+                            cur = {"apid": tc["apid"], "count": tc["count"], "ptype": 1, "shf": 1, "flags": 3}
+                            yield Case({**c, "reuse": {"then": next_command(rng, cur), "how": ("tc", "hdr", "parts")[n_via % 3]}},
+                                       "valid", tag=f"create{sub}-tc-reused")
         # PFCs that are not 8 x width (accepted by the constructor): the weaker round trip that holds for every
         # accepted PFC - same value, same width, same octets, == exactly when all PFCs were aligned
         for sub in range(1, 9):
